@@ -100,6 +100,7 @@ pub fn child(prop: &str, tier: Tier, which: &str, rest: &[String]) -> i32 {
         ("C17", "hostile") => c17::child_hostile(),
         ("C17", "sites") => c17::run_sites_in_this_process(tier, None),
         ("C17", "one") => c17::child_one(tier, rest),
+        ("C16", "deep") => c16::child_deep(tier, rest),
         _ => 2,
     }
 }
